@@ -377,7 +377,7 @@ theorem T08_delete_eq_build_fn (W k : Nat) (rc : Bool) (hk : ValidK k) (hw : Wid
     (names : List String) (samples : List (List (Array UInt8))) (del : List String)
     (hn : names.Nodup) (hlen : names.length = samples.length)
     (hne : ∀ recs ∈ samples, observations k rc recs ≠ [])
-    (h1 : del ≠ []) (h2 : del.length ≠ names.length) (h3 : ∀ n ∈ del, n ∈ names) (t t' : Nat) :
+    (h1 : del ≠ []) (h2 : del.eraseDups.length ≠ names.length) (h3 : ∀ n ∈ del, n ∈ names) (t t' : Nat) :
     ∃ md md' a', buildAndMerge k rc t (builtSamples W k rc names samples) = .ok md
       ∧ buildAndMerge k rc t' (builtSamples W k rc (names.filter (fun n => !del.contains n))
           (((names.zip samples).filter (fun p => !del.contains p.1)).map (·.2))) = .ok md'
